@@ -122,7 +122,22 @@ func (g *gates) install() {
 	for _, p := range []string{"plotter.idle", "plotter.popped", "plotter.plotting", "plotter.plotted", "plotter.stepDone"} {
 		verifhook.SetPoint(p, g.handler(p))
 	}
+	// end of pass A of a real plot: an armed one-shot action (a Stop request that takes effect inside pass B)
+	verifhook.SetPoint("plot.A.final", func(args ...interface{}) {
+		midPlotMu.Lock()
+		f := midPlot
+		midPlot = nil
+		midPlotMu.Unlock()
+		if f != nil {
+			f()
+		}
+	})
 }
+
+var (
+	midPlotMu sync.Mutex
+	midPlot   func()
+)
 
 func (g *gates) attach(sk interface{}) {
 	g.mu.Lock()
@@ -1003,22 +1018,54 @@ func (d *drv) step() {
 	from, sid := d.pos, d.posSid
 	d.op("plotter-release:"+from, sid, "", func(o *opRec) *allow {
 		al := newAllow()
+		var stopDone chan struct{}
 		if from == "plotting" {
 			d.allowPlot(al, sid)
 			d.count("real_plot_calls")
+			if d.rng.Chance(1, 3) {
+				// a Stop request that arrives when pass A has just been completed: the plot is cut short inside pass B.
+				// Stop deletes nothing: map A must survive beside the incomplete map B (allowPlot's post-condition).
+				stopDone = make(chan struct{})
+				sk := d.sk
+				midPlotMu.Lock()
+				midPlot = func() {
+					go func() {
+						sk.ActOnWorkSpace(sid, engine.Stop)
+						close(stopDone)
+					}()
+					time.Sleep(2 * time.Millisecond)
+				}
+				midPlotMu.Unlock()
+				o.Arg = "with Stop issued at the end of pass A"
+			}
 		}
 		if from == "idle" {
 			d.chanPend = 0
 		}
 		theGates.release()
 		ev, ok := theGates.wait(d.timeout)
+		if stopDone != nil {
+			midPlotMu.Lock()
+			fired := midPlot == nil
+			midPlot = nil
+			midPlotMu.Unlock()
+			if fired {
+				d.count("stops_issued_at_end_of_pass_a")
+				select {
+				case <-stopDone:
+				case <-time.After(d.timeout):
+					d.abort("stop-issued-inside-plot-did-not-return")
+					return al
+				}
+			}
+		}
 		if !ok {
 			d.abort("plotter-did-not-reach-next-point-from:" + from)
 			return al
 		}
 		d.setPos(ev)
 		o.Result = "ok"
-		o.Arg = "reached " + d.posString()
+		o.Arg = strings.TrimSpace(o.Arg + " reached " + d.posString())
 		return al
 	})
 }
